@@ -5,6 +5,8 @@ import (
 	"go/constant"
 	"go/token"
 	"go/types"
+	"sort"
+	"strconv"
 	"strings"
 	"unicode/utf8"
 
@@ -125,20 +127,21 @@ type Frame struct {
 
 // Interp is the state of one path.
 type Interp struct {
-	Prog    *ssa.Program
-	Oracle  *Oracle
-	Hooks   Hooks
-	Globals map[*ssa.Global]*Cell
-	Conds   map[string]bool // memo of symbolic branch decisions on this path
-	CondLog []string
-	CondV   []CondRec
-	IdxLog  []IdxRec // index / slice expressions on symbolic containers (bounds.go)
-	Steps   int
-	MaxStep int
-	Depth   int
-	MaxDep  int
-	Cur     *Frame
-	Client  any // engine state of this path
+	Prog      *ssa.Program
+	Oracle    *Oracle
+	Hooks     Hooks
+	Globals   map[*ssa.Global]*Cell
+	Conds     map[string]bool // memo of symbolic branch decisions on this path
+	CondLog   []string
+	CondV     []CondRec
+	IdxLog    []IdxRec       // index / slice expressions on symbolic containers (bounds.go)
+	MapChoice map[string]int // which entry an unknown key of a concrete map was taken for (per path)
+	Steps     int
+	MaxStep   int
+	Depth     int
+	MaxDep    int
+	Cur       *Frame
+	Client    any // engine state of this path
 	// Module is the import path prefix of the analysed module; functions outside
 	// it are not interpreted on abstract arguments.
 	Module string
@@ -899,6 +902,31 @@ func (in *Interp) lookup(m, k Val, x *ssa.Lookup) Val {
 	case *Map:
 		if v, ok := mm.M[Key(k)]; ok {
 			res, found = v, mkBool(true)
+		} else if _, concrete := k.(Const); !concrete && len(mm.M) > 0 {
+			// an unknown key may be any of the entries or none of them: one
+			// path per possibility (the choice is remembered per key, so that
+			// two lookups of the same unknown agree)
+			keys := make([]string, 0, len(mm.M))
+			for kk := range mm.M {
+				keys = append(keys, kk)
+			}
+			sort.Strings(keys)
+			memo := "mapkey " + Key(k) + fmt.Sprintf(" in %p", mm)
+			c, seen := in.MapChoice[memo]
+			if !seen {
+				c = in.Oracle.Choose(len(keys)+1, "unknown key "+clipKey(Key(k))+" of a map with "+strconv.Itoa(len(keys))+" entries")
+				if in.MapChoice == nil {
+					in.MapChoice = map[string]int{}
+				}
+				in.MapChoice[memo] = c
+			}
+			if c < len(keys) {
+				res, found = mm.M[keys[c]], mkBool(true)
+				in.CondLog = append(in.CondLog, "assume "+clipKey(Key(k))+" is the map key "+keys[c])
+			} else {
+				res = Zero(x.X.Type().Underlying().(*types.Map).Elem())
+				in.CondLog = append(in.CondLog, "assume "+clipKey(Key(k))+" is not a key of the map")
+			}
 		} else {
 			res = Zero(x.X.Type().Underlying().(*types.Map).Elem())
 		}
@@ -1487,4 +1515,11 @@ func pureStd(fn *ssa.Function, args []Val) (Val, bool) {
 		return MkInt(int64(strings.LastIndexByte(a, byte(c)))), true
 	}
 	return nil, false
+}
+
+func clipKey(s string) string {
+	if len(s) > 80 {
+		return s[:80] + "…"
+	}
+	return s
 }
